@@ -154,6 +154,19 @@ func decode(encoded encodedMessage) (messageWithHeader, error) {
 }
 
 func (c *Conversation) receiveDecoded(message messageWithHeader) (plain MessagePlaintext, toSend []messageWithHeader, err error) {
+	versionBefore, theirTagBefore, msgStateBefore := c.version, c.theirInstanceTag, c.msgState
+	rejectedData := false
+	defer func() {
+		if err != nil || rejectedData {
+			// a message that is rejected neither commits the conversation to its protocol version nor
+			// binds it to the instance it names
+			if versionBefore == nil {
+				c.version = nil
+			}
+			c.theirInstanceTag = theirTagBefore
+		}
+	}()
+
 	if err = c.checkVersion(message); err != nil {
 		return
 	}
@@ -166,6 +179,9 @@ func (c *Conversation) receiveDecoded(message messageWithHeader) (plain MessageP
 	msgType := messageHeader[2]
 	switch msgType {
 	case msgTypeData:
+		// outside a private conversation no data message is accepted (its flag may ask for the
+		// failure not to be reported: there is no error then)
+		rejectedData = msgStateBefore != encrypted
 		return c.receiveDataMessage(messageHeader, messageBody)
 	default:
 		return c.receiveAKEMessage(msgType, messageBody)
